@@ -46,42 +46,15 @@ def _arith(ctx) -> None:
     c05._pairing(Px())
     # the unary kernel is reported by c05._dispatch under c.pairing
     c05._dispatch(Px())
-    # loop form of __radd__: None branch
-    prog = ctx.prog
-    f = prog.func("vector.Vector.__radd__")
-    k = 0
-    for lp in [s for s in walk_stmts(f.body) if isinstance(s, ast.For)]:
-        k += 1
-        vars_ = [n.id for n in ast.walk(lp.target) if isinstance(n, ast.Name)]
-        problems = []
-        if not (len(lp.body) == 1 and isinstance(lp.body[0], ast.If)):
-            problems.append("loop body is not a single if/else on None")
-        else:
-            i = lp.body[0]
-            want = " or ".join(f"{v} is None" for v in vars_)
-            if short(i.test) != want:
-                problems.append(f"the None test is `{short(i.test)}`, expected `{want}`")
-            if not (len(i.body) == 1 and short(i.body[0]).endswith(".append(None)")):
-                problems.append("a None operand does not append None")
-            if not (len(i.orelse) == 1 and ".append(" in short(i.orelse[0])):
-                problems.append("no else branch computing the sum")
-        ctx.ob("a.arith-kernels", f, f"radd-none:{k}", not problems, "None operand -> None", lp, message="; ".join(problems))
-    # _Date.__add__ element expressions
-    f = prog.func("vector._Date.__add__")
-    k = 0
-    for r in [s for s in walk_stmts(f.body) if isinstance(s, ast.Return)][:-1]:
-        k += 1
-        c = comp_of(r.value.args[0]) if isinstance(r.value, ast.Call) and r.value.args else None
-        problems = []
-        if c is None or c.generators[0].ifs:
-            problems.append("not an unfiltered comprehension")
-        else:
-            vars_ = [n.id for n in ast.walk(c.generators[0].target) if isinstance(n, ast.Name)]
-            e = c.elt
-            want = " and ".join(f"{v} is not None" for v in vars_)
-            if not (isinstance(e, ast.IfExp) and short(e.test) == want and short(e.orelse) == "None"):
-                problems.append(f"element `{short(e, 70)}` does not map a None operand to None (expected `... if {want} else None`)")
-        ctx.ob("a.arith-kernels", f, f"date-add:{k}", not problems, "dates + days keeps None", r, message="; ".join(problems))
+    # _Date.__add__ (dates + days): None kept, decided with the same element evaluation as C05.e
+    class Pw:
+        prog = ctx.prog
+
+        def ob(self, rule, func, role, ok, what, node=None, message="", witness=""):
+            if rule == "e.wrappers" and role == "date-add":
+                return ctx.ob("a.arith-kernels", func, role, ok, what, node, message, witness)
+            return ok
+    c05._wrappers(Pw())
 
 
 def _compare(ctx) -> None:
